@@ -19,8 +19,33 @@ def _effects(outcome):
     for t in parts:
         t = t.strip()
         if t.startswith('call '):
-            m = _re.match(r'call (.+?)\(', t)
-            out.append(('call', m.group(1) if m else '?', t))
+            # callee = everything before the parenthesis that matches the final ')'
+            head = '?'
+            if t.endswith(')'):
+                depth = 0
+                for i in range(len(t) - 1, 4, -1):
+                    if t[i] == ')':
+                        depth += 1
+                    elif t[i] == '(':
+                        depth -= 1
+                        if depth == 0:
+                            head = t[5:i]
+                            break
+            else:
+                m = _re.match(r'call (.+?)\(', t)
+                head = m.group(1) if m else '?'
+            # X.extend((a, b)) is X.append(a) ; X.append(b)
+            if head.endswith('.extend'):
+                try:
+                    import ast as _ast
+                    arg = _ast.parse(t[5 + len(head):], mode='eval').body
+                    if isinstance(arg, (_ast.Tuple, _ast.List)) and arg.elts and not any(isinstance(x, _ast.Starred) for x in arg.elts):
+                        for x in arg.elts:
+                            out.append(('call', head[:-7] + '.append', 'call %s.append(%s)' % (head[:-7], _ast.unparse(x))))
+                        continue
+                except SyntaxError:
+                    pass
+            out.append(('call', head, t))
         elif t.startswith('store '):
             out.append(('store', t[6:].split(' = ')[0], t))
         elif t.startswith('new '):
@@ -231,15 +256,23 @@ def _judge(want, have, closure=(), depth=0, conds=None, wconds=None):
                 if m:
                     out.append((m.group(1), m.group(2), k))
             return out
-        hp, wp = preds(conds), preds(wconds)
-        for wf, wa, wk in wp:
-            if wk in conds:
-                continue
-            for hf, ha, hk in hp:
-                if hk in wconds:
+        def atoms(cs):
+            out = []
+            for k, v in cs.items():
+                kk = k[1:-1] if k.startswith('<') and k.endswith('>') else k
+                kk = _re.sub(r'#\d+$', '', kk)
+                m = _re.fullmatch(r'([A-Za-z_][\w.]*(?:\([^()]*\))?(?:\.\w+)*)\((.*)\)', kk)
+                if m:
+                    out.append((m.group(1), m.group(2), k, v))
+            return out
+        ha, wa = atoms(conds), atoms(wconds)
+        for only, other, okeys in ((wa, ha, conds), (ha, wa, wconds)):
+            for f1, a1, k1, v1 in only:
+                if k1 in okeys:
                     continue
-                if (wf == hf) != (wa == ha):
-                    return 'undecided', 'the reviewed case assumes `%s`, this path assumes `%s` and never evaluates the former: alternatives that exclude each other may be tried in another order' % (wk[:80], hk[:80])
+                for f2, a2, k2, v2 in other:
+                    if v2 is True and (f1 == f2) != (a1 == a2):
+                        return 'undecided', 'one side evaluates `%s`, the other does not, and the other assumes its sibling `%s`: alternatives that exclude each other may be tried in another order' % (k1[:80], k2[:80])
     we, he = _visible(_effects(want)), _visible(_effects(have))
     esc = _escaping_touch(want, have)
     if esc is not None:
@@ -292,6 +325,15 @@ def _judge(want, have, closure=(), depth=0, conds=None, wconds=None):
         return 'undecided', 'different steps on local objects'
     # same visible steps: operands
     for (k, h, t1), (_, _, t2) in zip(we, he):
+        if t1 != t2 and k == 'call':
+            try:
+                import ast as _ast
+                n1 = len(_ast.parse(t1[5:], mode='eval').body.args) + len(_ast.parse(t1[5:], mode='eval').body.keywords)
+                n2 = len(_ast.parse(t2[5:], mode='eval').body.args) + len(_ast.parse(t2[5:], mode='eval').body.keywords)
+                if n1 != n2:
+                    return 'undecided', 'the same callee is called with another number of arguments (`%s` / `%s`): its signature or defaults may have changed with it' % (t2[:80], t1[:80])
+            except (SyntaxError, AttributeError):
+                pass
         if t1 != t2:
             if _re.search(r'obj\d+', t1 + t2) or 'loop ' in t1:
                 return 'undecided', 'same visible steps; an operand built from local objects is spelled differently (%s)' % t2[:120]
@@ -348,8 +390,26 @@ def check_table(p, res, rname, fq, message, detectors=()):
         if isinstance(par, ast.IfExp) and par.test is not call:
             truth_only = False
     if truth_only:
+        import re as _re2
+
+        def tz(c, o):
+            if o.endswith('ret None') or 'ret None ||' in o:
+                return o.replace('ret None', 'ret False')
+            m = _re2.search(r'ret __(\d+)$', o.split(' || ')[0])
+            if m:
+                # the returned value is the result of a call whose truth this case assumes: only the truth is observed
+                eff = _effects(o)
+                k = int(m.group(1))
+                if k < len(eff) and eff[k][0] == 'call':
+                    txt = eff[k][2][5:]
+                    nth = sum(1 for e in eff[:k + 1] if e[2] == eff[k][2])
+                    key = '<%s>' % txt if nth == 1 else '<%s#%d>' % (txt, nth)
+                    if c.get(key) in (True, False):
+                        return o.replace('ret __%d' % k, 'ret %s' % c[key])
+            return o
+
         def fz(rows):
-            return [(l, [(c, o.replace('ret None', 'ret False') if (o.endswith('ret None') or 'ret None ||' in o) else o) for c, o in rs]) for l, rs in rows]
+            return [(l, [(c, tz(c, o)) for c, o in rs]) for l, rs in rows]
         have, want = fz(have), fz(want)
     closure = set()
     g = f.parent
